@@ -16,7 +16,8 @@ import (
 
 // QCfg parameterises a random producer/consumer history on one queue.
 type QCfg struct {
-	Tick        *int64 // progress counter for the watchdog (set by the caller)
+	Tick        *int64     // progress counter for the watchdog (set by the caller)
+	EnvOut      **qenv.Env // receives the environment as soon as it exists (the watchdog salvages the events of a hanging run)
 	Name        string
 	Seed        int64
 	PageSize    uint32
@@ -158,6 +159,9 @@ func RunQueueHistory(c QCfg) (tr *core.Trace, env *qenv.Env) {
 	rng := rand.New(rand.NewSource(c.Seed))
 	e := qenv.New(c.Name, txfile.Options{PageSize: c.PageSize, MaxSize: c.MaxPages * uint64(c.PageSize)}, c.WriteBuffer)
 	e.Tick = c.Tick
+	if c.EnvOut != nil {
+		*c.EnvOut = e
+	}
 	e.RecordIO = c.RecordIO
 	tr = &core.Trace{Name: c.Name, Meta: c.String()}
 	env = e
@@ -251,6 +255,8 @@ func queueHistories(r *core.Run, cfgs []QCfg) []*core.Trace {
 			done := make(chan struct{})
 			var tr *core.Trace
 			c.Tick = new(int64)
+			var env *qenv.Env
+			c.EnvOut = &env
 			go func() {
 				defer close(done)
 				tr, _ = RunQueueHistory(c)
@@ -258,8 +264,12 @@ func queueHistories(r *core.Run, cfgs []QCfg) []*core.Trace {
 			switch core.WatchRun(c.Tick, done, 90*time.Second, 30*time.Minute) {
 			case "":
 				traces[i] = tr
-			case "hang": // no operation returned for 90 s
-				traces[i] = &core.Trace{Name: c.Name, Meta: c.String(), Events: []core.Event{{"ev": "Hang", "cfg": c.String()}}}
+			case "hang": // no operation returned for 90 s: keep what was recorded up to there
+				var evs []core.Event
+				if env != nil {
+					evs = env.Events()
+				}
+				traces[i] = &core.Trace{Name: c.Name, Meta: c.String(), Events: append(evs, core.Event{"ev": "Hang", "cfg": c.String()})}
 			default:
 				r.Break("history %s did not finish within the budget (it kept making progress)", c.Name)
 				traces[i] = &core.Trace{Name: c.Name, Meta: c.String()}
@@ -435,6 +445,9 @@ func RunFillDrain(c QCfg, cycles int) (tr *core.Trace, env *qenv.Env) {
 	rng := rand.New(rand.NewSource(c.Seed))
 	e := qenv.New(c.Name, txfile.Options{PageSize: c.PageSize, MaxSize: c.MaxPages * uint64(c.PageSize)}, c.WriteBuffer)
 	e.Tick = c.Tick
+	if c.EnvOut != nil {
+		*c.EnvOut = e
+	}
 	tr = &core.Trace{Name: c.Name, Meta: c.String() + fmt.Sprintf(" cycles=%d", cycles)}
 	env = e
 	defer func() {
@@ -523,6 +536,8 @@ func CheckC12(r *core.Run) {
 			done := make(chan struct{})
 			var tr, got *core.Trace
 			c.Tick = new(int64)
+			var env *qenv.Env
+			c.EnvOut = &env
 			go func() {
 				defer close(done)
 				got, _ = RunFillDrain(c, r.Pick(6, 20))
@@ -530,8 +545,12 @@ func CheckC12(r *core.Run) {
 			switch core.WatchRun(c.Tick, done, 90*time.Second, 30*time.Minute) {
 			case "":
 				tr = got
-			case "hang": // no operation returned for 90 s
-				tr = &core.Trace{Name: c.Name, Meta: c.String(), Events: []core.Event{{"ev": "Hang", "cfg": c.String()}}}
+			case "hang": // no operation returned for 90 s: keep what was recorded up to there
+				var evs []core.Event
+				if env != nil {
+					evs = env.Events()
+				}
+				tr = &core.Trace{Name: c.Name, Meta: c.String(), Events: append(evs, core.Event{"ev": "Hang", "cfg": c.String()})}
 			default:
 				r.Break("fill/drain run %s did not finish within the budget (it kept making progress)", c.Name)
 				tr = &core.Trace{Name: c.Name, Meta: c.String()}
